@@ -76,7 +76,7 @@ deriving DecidableEq, Repr
 
 def Defects.asImplemented : Defects :=
   { lengthsUnbound := true, presenceUnbound := true, kindUnbound := true,
-    challengeSignedRaw := true, emptyKeyPanics := true }
+    challengeSignedRaw := true, emptyKeyPanics := false }
 
 def Defects.none : Defects :=
   { lengthsUnbound := false, presenceUnbound := false, kindUnbound := false,
